@@ -237,6 +237,10 @@ def byte_offset(n, fam, seen=None):
     if n.get("k") == "Binary" and n["op"] == "Add":
         a, b = byte_offset(n["l"], fam, seen), byte_offset(n["r"], fam, seen)
         return "sum" if (a and b) else None
+    if n.get("k") == "Field" and n.get("name") == "0" and FL.try_operand(F.strip(n["e"])) is not None:
+        r_ = C.payload_is_index(n["e"], [("field", "0")], fam, seen)
+        if r_ and "char_indices" in r_:
+            return "index component of a char_indices() item"
     if n.get("k") in ("If", "Match", "Block") and len(seen) < 12:
         # a value chosen by if / match / block: every branch that yields a value yields a byte offset
         k_ = n["k"]
